@@ -251,10 +251,12 @@ pub fn run_history(ctx: &Ctx, sz: &Sizes, hist: u64) {
     let multi_pm = *r.pick(&[0u64, 150, 400, 800]);
     let use_baton = r.chance(400);
     let rmode = r.below(4); // 0 eager recv, 1 delayed, 2 try_recv polling, 3 set
-    let mut plans = Vec::new();
+    let mut plans: Vec<SenderPlan> = Vec::new();
     for i in 0..nsenders {
-        let kind = if is_os() && r.chance(200) { 2 } else if r.chance(300) { 1 } else { 0 };
-        plans.push(SenderPlan { idx: i as u32, lens: gen_lens(&mut r, sz, per, multi_pm), kind, baton: use_baton && kind != 2 });
+        // 0 thread with a clone, 1 thread whose clone travelled through a channel, 2 exec'd process that is
+        // handed a handle, 3 fork()ed process that inherits a copy of the original handle
+        let kind = if is_os() && r.chance(200) { 2 } else if is_os() && r.chance(120) { 3 } else if r.chance(300) { 1 } else { 0 };
+        plans.push(SenderPlan { idx: i as u32, lens: gen_lens(&mut r, sz, per, multi_pm), kind, baton: use_baton && kind < 2 });
     }
     // baton slots: a global chain over some (sender, seq) pairs of the baton-enabled thread senders, consistent with per-sender order
     let mut slots: Vec<(u32, u32)> = Vec::new();
@@ -277,6 +279,42 @@ pub fn run_history(ctx: &Ctx, sz: &Sizes, hist: u64) {
 
     let (tx, rx) = must("channel", ipc::channel::<Msg>());
     let logs: Arc<Mutex<Vec<SendRec>>> = Arc::new(Mutex::new(Vec::new()));
+    // ---- fork()ed senders first, while this process is single-threaded: the child inherits a byte
+    // copy of the handle (with whatever state the handle keeps), waits for "go", sends, _exits.
+    let mut forked: Vec<(i32, String)> = Vec::new();
+    let mut go_pipes: Vec<i32> = Vec::new();
+    let has_fork = plans.iter().any(|p| p.kind == 3);
+    if has_fork {
+        // the handle has already carried a multi-packet message when it is inherited
+        let warm = sz.f1 + 1;
+        let wid = mid(hist, 999, 0);
+        if tx.send((999, 0, Blob(body(wid, warm - 16)))).is_ok() {
+            let _ = rx.recv();
+        }
+        for p in plans.iter().filter(|p| p.kind == 3) {
+            let stamps = std::env::temp_dir().join(format!("c02-{}-{}.stamps", hist, p.idx)).to_string_lossy().into_owned();
+            let mut fds = [0i32; 2];
+            unsafe { libc::pipe2(fds.as_mut_ptr(), libc::O_CLOEXEC) };
+            let pid = unsafe { libc::fork() };
+            if pid == 0 {
+                // child
+                unsafe { libc::close(fds[1]) };
+                let mut b = [0u8; 1];
+                unsafe { libc::read(fds[0], b.as_mut_ptr() as *mut libc::c_void, 1) };
+                let mut log = Vec::new();
+                do_sends(&tx, hist, p, None, &[], &mut log);
+                if let Ok(mut f) = std::fs::File::create(&stamps) {
+                    for s in &log {
+                        let _ = writeln!(f, "{} {} {} {} {} {} {}", s.sender, s.seq, s.len, s.call, s.ret, s.ok as u8, s.err.replace(' ', "_"));
+                    }
+                }
+                unsafe { libc::_exit(0) };
+            }
+            unsafe { libc::close(fds[0]) };
+            go_pipes.push(fds[1]);
+            forked.push((pid, stamps));
+        }
+    }
     let running = Arc::new(AtomicU64::new(0));
     let children: Arc<Mutex<Vec<std::process::Child>>> = Arc::new(Mutex::new(Vec::new()));
     let mut stamp_files = Vec::new();
@@ -284,6 +322,7 @@ pub fn run_history(ctx: &Ctx, sz: &Sizes, hist: u64) {
     let tmp = std::env::temp_dir();
     for p in &plans {
         match p.kind {
+            3 => {},
             2 => {
                 let (server, name) = must("server", IpcOneShotServer::<IpcSender<IpcSender<Msg>>>::new());
                 let stamps = tmp.join(format!("c02-{}-{}.stamps", hist, p.idx)).to_string_lossy().into_owned();
@@ -318,13 +357,51 @@ pub fn run_history(ctx: &Ctx, sz: &Sizes, hist: u64) {
             },
         }
     }
-    drop(tx);
+    // the original handle (the one the forked children hold copies of) sends too, from its own thread
+    if has_fork {
+        let orig = tx;
+        let (logs2, run2) = (logs.clone(), running.clone());
+        let lens = gen_lens(&mut r, sz, per.min(20), multi_pm.max(400));
+        let p9 = SenderPlan { idx: 900, lens, kind: 0, baton: false };
+        plans.push(p9.clone());
+        running.fetch_add(1, Ordering::SeqCst);
+        threads.push(std::thread::spawn(move || {
+            let mut log = Vec::new();
+            do_sends(&orig, hist, &p9, None, &[], &mut log);
+            drop(orig);
+            logs2.lock().unwrap().extend(log);
+            run2.fetch_sub(1, Ordering::SeqCst);
+        }));
+        for fd in go_pipes.drain(..) {
+            unsafe {
+                libc::write(fd, b"g".as_ptr() as *const libc::c_void, 1);
+                libc::close(fd);
+            }
+        }
+    } else {
+        drop(tx);
+    }
+    let forked_pids: Arc<Mutex<Vec<(i32, bool)>>> = Arc::new(Mutex::new(forked.iter().map(|(p, _)| (*p, false)).collect()));
+    for (_, f) in &forked {
+        stamp_files.push(f.clone());
+    }
 
     let total: usize = plans.iter().map(|p| p.lens.len()).sum();
     let all_done = {
-        let (running, children) = (running.clone(), children.clone());
+        let (running, children, forked_pids) = (running.clone(), children.clone(), forked_pids.clone());
         move || {
             if running.load(Ordering::SeqCst) != 0 {
+                return false;
+            }
+            for e in forked_pids.lock().unwrap().iter_mut() {
+                if !e.1 {
+                    let mut st = 0;
+                    if unsafe { libc::waitpid(e.0, &mut st, libc::WNOHANG) } == e.0 {
+                        e.1 = true;
+                    }
+                }
+            }
+            if forked_pids.lock().unwrap().iter().any(|e| !e.1) {
                 return false;
             }
             let mut ch = children.lock().unwrap();
@@ -402,6 +479,15 @@ pub fn run_history(ctx: &Ctx, sz: &Sizes, hist: u64) {
                 let _ = c.kill();
                 let _ = c.wait();
             }
+            for e in forked_pids.lock().unwrap().iter() {
+                if !e.1 {
+                    unsafe {
+                        libc::kill(e.0, libc::SIGKILL);
+                        let mut st = 0;
+                        libc::waitpid(e.0, &mut st, 0);
+                    }
+                }
+            }
             return;
         },
         Watch::Panicked(s) => {
@@ -414,6 +500,13 @@ pub fn run_history(ctx: &Ctx, sz: &Sizes, hist: u64) {
     }
     for c in children.lock().unwrap().iter_mut() {
         let _ = c.wait();
+    }
+    for e in forked_pids.lock().unwrap().iter_mut() {
+        if !e.1 {
+            let mut st = 0;
+            unsafe { libc::waitpid(e.0, &mut st, 0) };
+            e.1 = true;
+        }
     }
     let mut sends = logs.lock().unwrap().clone();
     for f in &stamp_files {
@@ -436,6 +529,7 @@ pub fn run_history(ctx: &Ctx, sz: &Sizes, hist: u64) {
     rep.stat("histories", 1);
     rep.stat(&format!("receiver_{}", ["recv", "delayed", "try_recv", "set"][rmode as usize]), 1);
     rep.stat("process_senders", plans.iter().filter(|p| p.kind == 2).count() as i64);
+    rep.stat("forked_senders", plans.iter().filter(|p| p.kind == 3).count() as i64);
     rep.stat("multi_packet_messages", sends.iter().filter(|s| 16 + s.len > sz.f1 && is_os()).count() as i64);
     let mut seen_kinds = std::collections::BTreeSet::new();
     for (kind, detail) in v.problems {
